@@ -67,6 +67,7 @@ type EngineRunner struct {
 	shadow  *shadowFS
 	iter    *kv.Iterator
 	iterRef *iterRef
+	probeClose bool
 	mergeSeen []uint32
 	// first data file written entirely under the current DataFileSize (files that were
 	// active in an earlier session may have been filled under another limit)
@@ -365,9 +366,37 @@ func (r *EngineRunner) Exec(f []string) (res string) {
 		}
 		r.ref.afterOpen(r)
 		return "ok" + r.takeEvents(false)
+	case "probeclose": // the next Close is probed: an Open is attempted while Close is at its first file operation
+		r.probeClose = true
+		return ""
 	case "close":
 		r.ref.beforeClose(r)
 		r.so.opKind = "other"
+		if r.probeClose {
+			r.probeClose = false
+			orig := fio.VerifEvent
+			probed := false
+			dir := r.dir()
+			fio.VerifEvent = func(kind string, path string, data []byte, n int64) {
+				if !probed {
+					probed = true
+					cur, curFs := fio.VerifEvent, kv.VerifFsEvent
+					fio.VerifEvent, kv.VerifFsEvent = nil, nil
+					o := r.opts
+					o.DirPath = dir
+					o.FileIOType = fio.StandardFIO
+					if db2, err := kv.Open(o); err == nil {
+						r.fail("C16", "an Open succeeded while Close of the same directory was still closing its files")
+						_ = db2.Close()
+					}
+					fio.VerifEvent, kv.VerifFsEvent = cur, curFs
+				}
+				if orig != nil {
+					orig(kind, path, data, n)
+				}
+			}
+			defer func() { fio.VerifEvent = orig }()
+		}
 		err := r.db.Close()
 		r.so.afterOp(r, "close", err == nil, true, false)
 		r.db = nil
@@ -538,6 +567,8 @@ func (r *EngineRunner) Exec(f []string) (res string) {
 		return r.listing()
 	case "hintcheck":
 		return r.hintCheck()
+	case "open2", "openchild", "openbad", "openrace":
+		return r.execLock(f)
 	case "flipsweep": // E flipsweep <maxflips> <seed> <cfg 6 fields>
 		return r.flipSweep(f[4:10], atoi(f[2]), NewRng(uint64(atou(f[3]))))
 	}
